@@ -743,6 +743,37 @@ fn common_families(r: &mut Rng, w: &World, thorough: bool) -> Vec<VJob> {
 
 fn c01_jobs(r: &mut Rng, w: &World, thorough: bool) -> Vec<VJob> {
     let mut jobs = common_families(r, w, thorough);
+    // every referent moved to every other section of requested_proof (a predicate filed as self-attested / unrevealed /
+    // revealed, an attribute filed as a predicate, ...), shape by shape
+    for s in shapes() {
+        let spec = &s.1;
+        let d = spec.doc();
+        let arefs: Vec<String> = d["requested_attributes"].as_object().map(|o| o.keys().cloned().collect()).unwrap_or_default();
+        let prefs: Vec<String> = d["requested_predicates"].as_object().map(|o| o.keys().cloned().collect()).unwrap_or_default();
+        let sections = ["revealed_attrs", "unrevealed_attrs", "self_attested_attrs", "predicates"];
+        for (refs, froms) in [(&prefs, vec!["predicates"]), (&arefs, vec!["revealed_attrs", "unrevealed_attrs", "self_attested_attrs"])] {
+            for r0 in refs.iter() {
+                for from in froms.iter() {
+                    for to in sections.iter().filter(|t| *t != from) {
+                        let mut j = with_shape("referent-filed-in-another-section", Fmt::Legacy, w, &s);
+                        j.muts = vec![Mut::MoveRef(from, to, r0.clone())];
+                        jobs.push(j);
+                    }
+                }
+            }
+        }
+    }
+    // W3C: the request names an attribute the presented credential does not have; the presentation was built for the
+    // request without that referent, and a predicate marker / a value for it is added to the subject afterwards
+    for (extra, name) in [("a_sal", "salary"), ("a_x", "Salary"), ("a_zip", "zipcode"), ("a_extra", "extra")] {
+        for v in [json!(true), json!("Mallory"), json!(7)] {
+            let build = ReqSpec::new(NONCE).attr("a_name", "name").pred("p_age", "age", ">=", 18);
+            let verify = build.clone().attr(extra, name);
+            let mut j = job("cross-request:w3c-attribute-not-in-credential", Fmt::W3C, &build, &verify, vec![pick(0, &[("a_name", true)], &["p_age"], None)], w);
+            j.muts = vec![Mut::WSubjectSet(0, name.into(), v.clone())];
+            jobs.push(j);
+        }
+    }
     // thresholds the request document states outside the i32 range: the library refuses such a request when it reads
     // it (then there is no case); if it ever reads one, the presentation is judged against what the document says
     for fmt in [Fmt::Legacy, Fmt::W3C] {
@@ -1220,6 +1251,8 @@ fn c06_jobs(r: &mut Rng, w: &World, thorough: bool) -> Vec<VJob> {
         let setups: Vec<(&str, ReqSpec, Vec<Pick>, Vec<&str>)> = vec![
             ("one-cred", ReqSpec::new(NONCE).attr("a_name", "name").attr("a_sex", "sex").pred("p_age", "age", ">=", 18).group("g", &["name", "height"]),
              vec![pick(0, &[("a_name", true), ("a_sex", false), ("g", true)], &["p_age"], None)], vec!["a_name", "a_sex", "p_age", "g"]),
+            ("unrevealed-group-and-predicate", ReqSpec::new(NONCE).group("g", &["name", "height"]).attr("a_sex", "sex").pred("p_age", "age", ">=", 18),
+             vec![pick(0, &[("g", false), ("a_sex", false)], &["p_age"], None)], vec!["p_age", "g", "a_sex"]),
             ("two-creds", ReqSpec::new(NONCE).attr("a_name", "name").attr("a_zip", "zipcode").pred("p_sal", "salary", ">", 1000),
              vec![pick(1, &[("a_name", true)], &[], None), pick(2, &[("a_zip", true)], &["p_sal"], None)], vec!["a_name", "a_zip", "p_sal"]),
             ("case-variant", ReqSpec::new(NONCE).attr("a_name", "Name").attr("a_age", "age").attr("a_zip", "Zip Code"),
